@@ -19,7 +19,7 @@ CFG = dict(
                "decoded body, relation str_body incl. \\x \\u \\U as UTF-8), C16_line_comment_span (// to newline/end, literal = TrimSpace(span), a prefix), "
                "C16_block_comment_span (to the first */ or the end of input), C16_illegal_span, C16_end_marker (<= |s|+1 tokens, then returned by every "
                "later call), C16_keywords_not_idents, C16_no_abnormal_token (no nil token, no slice panic), C16_intern_functional_injective (explicit "
-               "interning table: same object iff same (type, literal) after any history). All full, none partial. Tie: byte predicates, token tables, "
+               "interning table: same object iff same (type, literal) after any history). C16_token_stream (the unbounded sequence of NextToken results of a fresh lexer, no fuel: call k returns the k-th element of lex_all, and from the last one on every call returns the end marker - \"keeps returning it\" on the real call sequence), C16_fuel_irrelevant (any fuel above |s|-pos gives the same list), C16_flags (HadWhitespace <-> the token is separated from the previous one, HadNewline <-> a newline byte lies in that gap), C16_equal_tokens_share_object (a process lexing ANY list of inputs in any modes: two delivered tokens are the same object iff same type and literal - interning-table objects for value tokens, the Init-made object per constant type, literal of a constant type unique by the generated tables). All full, none partial. Tie: byte predicates, token tables, "
                "keywords and escapes are regenerated from the Go source; model and lexer.NextToken/Pos/HadWhitespace/HadNewline agree on every "
                "string of length <= 2 over all 256 bytes and of length <= 3 (quick) / 4 (thorough) over a 29-symbol alphabet (incl. \\v \\f) in both modes, every byte value between tokens of every kind, random "
                "longer inputs and mutated examples; a model-free oracle judging with its own fixed whitespace set {space, tab, LF, CR} (rebuild the input from gaps + token texts, per-kind literal/span relation, "
